@@ -20,9 +20,10 @@ Arguments Panic {T}.
 
 Definition len {X} (l : list X) : Z := Z.of_nat (length l).
 
-(* sanitize_queue_size *)
+(* sanitize_queue_size (after "fix: a configured maximum queue size of 0 revised queue sizes to 0
+   and the queue grew without bound": never below 1) *)
 Definition sanitize_queue_size (mx r : Z) : Z :=
-  if (r =? 0) || (r =? 1) then 1 else if mx <? r then mx else r.
+  if (r =? 0) || (r =? 1) then 1 else if mx <? r then Z.max 1 mx else r.
 
 Section Queue.
   Context {A : Type}.
@@ -100,6 +101,12 @@ Arguments st A : clear implicits.
    (a panic with overflow checks, as the harness builds; a wrapped range and a panic inside
    `drain` without them) *)
 Module Legacy.
+  (* before the maximum-of-0 fix *)
+  Definition sanitize_queue_size (mx r : Z) : Z :=
+    if (r =? 0) || (r =? 1) then 1 else if mx <? r then mx else r.
+  Definition create {A} (mx r : Z) (d : bool) : st A :=
+    {| size := sanitize_queue_size mx r; disc := d; q := []; ovf := false |}.
+
   Definition modify {A} (mx : Z) (s : st A) (r : Z) (d : bool) (filt : Z) : outcome (st A * Z) :=
     if filt =? 2 then Done (s, 1)
     else
@@ -202,7 +209,6 @@ Definition op_ok (o : op) : Prop :=
   | Drain => True
   end.
 
-(* a server maximum of at least 1 (see props/C24.json: a configured maximum of 0 is outside the
-   property's "queue sizes 1..N"), u32 requests *)
+(* any server maximum (usize, including 0), u32 requests *)
 Definition valid (c : case) : Prop :=
-  1 <= c_max c /\ 0 <= c_size0 c <= U32MAX /\ Forall op_ok (c_ops c).
+  0 <= c_max c /\ 0 <= c_size0 c <= U32MAX /\ Forall op_ok (c_ops c).
